@@ -29,11 +29,19 @@
 
 #include "snoopy.h"
 
+#include <errno.h>
 #include <stdio.h>
 #include <stdlib.h>
 #include <unistd.h>
 #include <sys/types.h>
 #include <pwd.h>
+
+
+
+/*
+ * Lookup buffer is doubled up to this size when an entry does not fit
+ */
+#define SNOOPY_DS_EUSERNAME_LOOKUP_BUF_SIZE_MAX 1048576
 
 
 
@@ -57,6 +65,7 @@ int snoopy_datasource_eusername (char * const resultBuf, size_t resultBufSize, _
     char          *buffpwd_uid     = NULL;
     long           buffpwdsize_uid = 0;
     int            messageLength  = 0;
+    int            lookupStatus   = 0;
 
     /* Allocate memory */
     buffpwdsize_uid = sysconf(_SC_GETPW_R_SIZE_MAX);
@@ -68,8 +77,20 @@ int snoopy_datasource_eusername (char * const resultBuf, size_t resultBufSize, _
         return snprintf(resultBuf, resultBufSize, "ERROR(malloc)");
     }
 
-    /* Try to get data */
-    if (0 != getpwuid_r(geteuid(), &pwd, buffpwd_uid, buffpwdsize_uid, &pwd_uid)) {
+    /* Try to get data - an entry that does not fit (e.g. a long comment field) is retried with a larger buffer */
+    while (ERANGE == (lookupStatus = getpwuid_r(geteuid(), &pwd, buffpwd_uid, buffpwdsize_uid, &pwd_uid))) {
+        char *biggerBuf;
+        if (buffpwdsize_uid >= SNOOPY_DS_EUSERNAME_LOOKUP_BUF_SIZE_MAX) {
+            break;
+        }
+        buffpwdsize_uid *= 2;
+        biggerBuf = realloc(buffpwd_uid, buffpwdsize_uid);
+        if (NULL == biggerBuf) {
+            break;
+        }
+        buffpwd_uid = biggerBuf;
+    }
+    if (0 != lookupStatus) {
         messageLength  = snprintf(resultBuf, resultBufSize, "ERROR(getpwuid_r)");
     } else {
         if (NULL == pwd_uid) {
